@@ -4,6 +4,7 @@ import (
 	"errors"
 	"fmt"
 
+	"github.com/go-git/go-git/v6/internal/simhook"
 	"github.com/go-git/go-git/v6/plumbing"
 	"github.com/go-git/go-git/v6/plumbing/filemode"
 	"github.com/go-git/go-git/v6/plumbing/object"
@@ -66,6 +67,7 @@ func (p *objectWalker) present() []plumbing.Hash {
 		}
 		objs = append(objs, h)
 	}
+	simhook.SortHashes(objs)
 	return objs
 }
 
